@@ -36,6 +36,7 @@ import (
 	authtypes "github.com/cosmos/cosmos-sdk/x/auth/types"
 	authvesting "github.com/cosmos/cosmos-sdk/x/auth/vesting/types"
 	banktypes "github.com/cosmos/cosmos-sdk/x/bank/types"
+	distributiontypes "github.com/cosmos/cosmos-sdk/x/distribution/types"
 	govv1 "github.com/cosmos/cosmos-sdk/x/gov/types/v1"
 	slashingtypes "github.com/cosmos/cosmos-sdk/x/slashing/types"
 	stakingtypes "github.com/cosmos/cosmos-sdk/x/staking/types"
@@ -99,6 +100,40 @@ type GenesisSpec struct {
 	ExtraAccounts []authtypes.GenesisAccount
 	AccFunds      sdk.Int  // per key account, default 10^24
 	OmitModules   []string // genesis sections to leave out (the module's InitGenesis is then not run)
+	// Chain: how the chain's operators configured the standard modules (zero value: as the repository's tests do)
+	Chain ChainCfg
+}
+
+// ChainCfg: legitimate non-default choices of a chain's operators / of governance for the standard
+// modules.  Nothing the custom modules promise depends on them.
+type ChainCfg struct {
+	BondDenom            string `json:"bond_denom,omitempty"`             // staking bond denomination ("" = uc4e)
+	UnbondingS           int64  `json:"unbonding_s,omitempty"`            // staking unbonding time in seconds (0 = SDK default, 21 days)
+	CommunityTax         string `json:"community_tax,omitempty"`          // x/distribution community tax ("" = SDK default 0.02)
+	WithdrawAddrDisabled bool   `json:"withdraw_addr_disabled,omitempty"` // x/distribution withdraw_addr_enabled = false
+	SecondValidator      bool   `json:"second_validator,omitempty"`       // a second bonded validator with a 10 % commission (it never signs: it gets jailed after the signing window)
+	TxSizeCostPerByte    uint64 `json:"tx_size_cost_per_byte,omitempty"`  // x/auth (0 = default 10)
+	MaxMemo              uint64 `json:"max_memo,omitempty"`               // x/auth max memo characters (0 = default 256)
+	GovMinDeposit        int64  `json:"gov_min_deposit,omitempty"`        // x/gov minimum deposit in uc4e (0 = 1)
+	SignedBlocksWindow   int64  `json:"signed_blocks_window,omitempty"`   // x/slashing (0 = default 100)
+}
+
+// DrawChainCfg draws a chain configuration (half of them the default one).
+func DrawChainCfg(t *rapid.T) ChainCfg {
+	if rapid.Bool().Draw(t, "defaultChainCfg") {
+		return ChainCfg{}
+	}
+	return ChainCfg{
+		BondDenom:            []string{"", "", "uatom", "stake"}[rapid.IntRange(0, 3).Draw(t, "bondDenom")],
+		UnbondingS:           []int64{0, 1, 3600, 86400 * 3}[rapid.IntRange(0, 3).Draw(t, "unbonding")],
+		CommunityTax:         []string{"", "0", "0.3", "1"}[rapid.IntRange(0, 3).Draw(t, "communityTax")],
+		WithdrawAddrDisabled: rapid.Bool().Draw(t, "withdrawAddrDisabled"),
+		SecondValidator:      rapid.IntRange(0, 2).Draw(t, "secondValidator") == 0,
+		TxSizeCostPerByte:    []uint64{0, 1, 50}[rapid.IntRange(0, 2).Draw(t, "txSizeCost")],
+		MaxMemo:              []uint64{0, 4, 512}[rapid.IntRange(0, 2).Draw(t, "maxMemo")],
+		GovMinDeposit:        []int64{0, 10, 5}[rapid.IntRange(0, 2).Draw(t, "govMinDeposit")],
+		SignedBlocksWindow:   []int64{0, 10, 20}[rapid.IntRange(0, 2).Draw(t, "signedBlocksWindow")],
+	}
 }
 
 func NoMintingAny() *codectypes.Any {
@@ -335,15 +370,57 @@ func BuildGenesis(a *c4eapp.App, enc appparams.EncodingConfig, spec GenesisSpec)
 	delegations := []stakingtypes.Delegation{stakingtypes.NewDelegation(KeyAcc(0).Addr, val.Address.Bytes(), sdk.OneDec())}
 	sp := stakingtypes.DefaultParams()
 	sp.BondDenom = Denom
-	gs[stakingtypes.ModuleName] = cdc.MustMarshalJSON(stakingtypes.NewGenesisState(sp, []stakingtypes.Validator{validator}, delegations))
+	cc := spec.Chain
+	if cc.BondDenom != "" {
+		sp.BondDenom = cc.BondDenom
+	}
+	if cc.UnbondingS > 0 {
+		sp.UnbondingTime = time.Duration(cc.UnbondingS) * time.Second
+	}
+	validators := []stakingtypes.Validator{validator}
+	bonded := bondAmt
+	var val2Cons sdk.ConsAddress
+	if cc.SecondValidator {
+		priv2 := ed25519.GenPrivKeyFromSecret([]byte("validator1"))
+		pk2, err := codectypes.NewAnyWithValue(priv2.PubKey())
+		if err != nil {
+			panic(err)
+		}
+		v2 := validator
+		v2.OperatorAddress = sdk.ValAddress(priv2.PubKey().Address()).String()
+		v2.ConsensusPubkey = pk2
+		v2.Commission = stakingtypes.NewCommission(sdk.NewDecWithPrec(10, 2), sdk.NewDecWithPrec(20, 2), sdk.NewDecWithPrec(1, 2))
+		validators = append(validators, v2)
+		delegations = append(delegations, stakingtypes.NewDelegation(KeyAcc(0).Addr, priv2.PubKey().Address().Bytes(), sdk.OneDec()))
+		bonded = bonded.MulRaw(2)
+		val2Cons = sdk.ConsAddress(priv2.PubKey().Address())
+	}
+	gs[stakingtypes.ModuleName] = cdc.MustMarshalJSON(stakingtypes.NewGenesisState(sp, validators, delegations))
 	balances = append(balances, banktypes.Balance{
 		Address: authtypes.NewModuleAddress(stakingtypes.BondedPoolName).String(),
-		Coins:   sdk.NewCoins(sdk.NewCoin(Denom, bondAmt)),
+		Coins:   sdk.NewCoins(sdk.NewCoin(sp.BondDenom, bonded)),
 	})
+	if cc.CommunityTax != "" || cc.WithdrawAddrDisabled {
+		dg := distributiontypes.DefaultGenesisState()
+		if cc.CommunityTax != "" {
+			dg.Params.CommunityTax = sdk.MustNewDecFromStr(cc.CommunityTax)
+			if dg.Params.CommunityTax.Add(dg.Params.BaseProposerReward).Add(dg.Params.BonusProposerReward).GT(sdk.OneDec()) {
+				dg.Params.BaseProposerReward, dg.Params.BonusProposerReward = sdk.ZeroDec(), sdk.ZeroDec()
+			}
+		}
+		dg.Params.WithdrawAddrEnabled = !cc.WithdrawAddrDisabled
+		gs[distributiontypes.ModuleName] = cdc.MustMarshalJSON(dg)
+	}
 
 	consAddr := sdk.ConsAddress(val.Address)
 	sg := slashingtypes.DefaultGenesisState()
+	if cc.SignedBlocksWindow > 0 {
+		sg.Params.SignedBlocksWindow = cc.SignedBlocksWindow
+	}
 	sg.SigningInfos = []slashingtypes.SigningInfo{{Address: consAddr.String(), ValidatorSigningInfo: slashingtypes.NewValidatorSigningInfo(consAddr, 0, 0, time.Unix(0, 0).UTC(), false, 0)}}
+	if val2Cons != nil {
+		sg.SigningInfos = append(sg.SigningInfos, slashingtypes.SigningInfo{Address: val2Cons.String(), ValidatorSigningInfo: slashingtypes.NewValidatorSigningInfo(val2Cons, 0, 0, time.Unix(0, 0).UTC(), false, 0)})
+	}
 	gs[slashingtypes.ModuleName] = cdc.MustMarshalJSON(sg)
 
 	vest := spec.Vesting
@@ -358,7 +435,14 @@ func BuildGenesis(a *c4eapp.App, enc appparams.EncodingConfig, spec GenesisSpec)
 	}
 	gs[vestingtypes.ModuleName] = cdc.MustMarshalJSON(vest)
 
-	gs[authtypes.ModuleName] = cdc.MustMarshalJSON(authtypes.NewGenesisState(authtypes.DefaultParams(), genAccs))
+	ap := authtypes.DefaultParams()
+	if cc.TxSizeCostPerByte > 0 {
+		ap.TxSizeCostPerByte = cc.TxSizeCostPerByte
+	}
+	if cc.MaxMemo > 0 {
+		ap.MaxMemoCharacters = cc.MaxMemo
+	}
+	gs[authtypes.ModuleName] = cdc.MustMarshalJSON(authtypes.NewGenesisState(ap, genAccs))
 
 	total := sdk.NewCoins()
 	for _, b := range balances {
@@ -376,6 +460,9 @@ func BuildGenesis(a *c4eapp.App, enc appparams.EncodingConfig, spec GenesisSpec)
 	vp := 10 * time.Second
 	gg.VotingParams.VotingPeriod = &vp
 	gg.DepositParams.MinDeposit = sdk.NewCoins(sdk.NewInt64Coin(Denom, 1))
+	if cc.GovMinDeposit > 0 {
+		gg.DepositParams.MinDeposit = sdk.NewCoins(sdk.NewInt64Coin(Denom, cc.GovMinDeposit))
+	}
 	gs["gov"] = cdc.MustMarshalJSON(gg)
 
 	m := spec.Minter
